@@ -54,7 +54,7 @@ def value_text(v):
   raise AssertionError(v)
 
 
-def render(doc, salt):
+def render(doc, salt, pkgname=None):
   """Text of an abstract document: one statement per line (blocks: header plus one line per member)."""
   lines = []
   for i, s in enumerate(doc):
@@ -70,7 +70,7 @@ def render(doc, salt):
     elif t == 'import':
       lines.append('import %s' % s['module'])
     elif t == 'include':
-      lines.append("include '%s.gin'" % s['file'])
+      lines.append("include '%s.gin'" % (pkgname + '/p' if (s['file'] == 'p' and pkgname) else s['file']))
     elif t == 'syntax':
       lines.append(SYNTAX_TEXTS[(salt + i) % len(SYNTAX_TEXTS)])
     else:
@@ -102,6 +102,14 @@ def run_case(case, salt):
   saved_prefixes = list(config._LOCATION_PREFIXES)
   mem = MemReader()
   obs = {}
+  _STATE['n'] = _STATE.get('n', 0) + 1
+  pkgname = 'gvparsepkg%d' % _STATE['n']          # package-relative names resolve through the Python path
+  pkgroot = tempfile.mkdtemp(prefix='ginverif_pkg_')
+  os.mkdir(os.path.join(pkgroot, pkgname))
+  open(os.path.join(pkgroot, pkgname, '__init__.py'), 'w').close()
+  sys.path.insert(0, pkgroot)
+  import importlib
+  importlib.invalidate_caches()
   try:
     os.chdir(work)
     locpath = {'': ''}
@@ -113,11 +121,18 @@ def run_case(case, salt):
     config.register_file_reader(mem.open, mem.readable)
     expected_first = {n: (r[1] if r[0] == 'found' else None) for n, r in case['resolved'].items()}
     for loc, reader, name in case['present']:
-      text = render(case['files'][name], salt)
+      text = render(case['files'][name], salt, pkgname)
       if expected_first.get(name) and [loc, reader, name] != list(expected_first[name]):
         text = "gvparse.f.p = 'WRONG-PLACEMENT-%s-%s'\n" % (loc, reader)      # reading this one would be a resolution error
       path = os.path.join(locpath[loc], name + '.gin')
-      if reader == 'r1':
+      if name == 'p' and reader != 'pkg':
+        path = os.path.join(locpath[loc], pkgname, 'p.gin')       # the same relative name under a search location
+      if reader == 'pkg':
+        with open(os.path.join(pkgroot, pkgname, name + '.gin'), 'w') as fh:
+          fh.write(text)
+      elif reader == 'r1':
+        if os.path.dirname(path):
+          os.makedirs(os.path.dirname(path), exist_ok=True)
         with open(path, 'w') as fh:
           fh.write(text)
       else:
@@ -152,6 +167,10 @@ def run_case(case, salt):
     config._LOCATION_PREFIXES[:] = saved_prefixes
     gin.clear_config()
     shutil.rmtree(work, ignore_errors=True)
+    if pkgroot in sys.path:
+      sys.path.remove(pkgroot)
+    sys.modules.pop(pkgname, None)
+    shutil.rmtree(pkgroot, ignore_errors=True)
 
 
 def status_of(e):
@@ -231,7 +250,7 @@ def entry_point_case(case, salt, finalize):
   cwd = os.getcwd()
   try:
     os.chdir(work)
-    for name in ('root', 'a', 'b'):
+    for name in ('root', 'a', 'b', 'p'):
       with open(os.path.join(work, name + '.gin'), 'w') as fh:
         fh.write(render(case['files'][name], salt))
     with open(os.path.join(work, 'second.gin'), 'w') as fh:
